@@ -2,6 +2,7 @@ package syntax
 
 import (
 	"bytes"
+	"encoding/binary"
 	"fmt"
 	"math"
 	"slices"
@@ -466,7 +467,13 @@ func (w *writer) stringCode(str []rune) int {
 		return 0
 	}
 
-	hash := string(str)
+	// (not string(str): that maps every surrogate half to U+FFFD, so that
+	// different literals would share one table entry)
+	key := make([]byte, 0, len(str)*4)
+	for _, r := range str {
+		key = binary.LittleEndian.AppendUint32(key, uint32(r))
+	}
+	hash := string(key)
 	i, ok := w.stringhash[hash]
 	if !ok {
 		i = len(w.stringhash)
